@@ -76,6 +76,21 @@ def run(ctx):
                 except Exception:  # noqa  (unresolvable defaults are reported through the reader/writer construction above)
                     pass
                 # class identity of resolved defaults (abstract values do not carry it)
+                pass
+            # the class a field's type refers to is THE class importable under that name (a module that defines a class
+            # twice binds annotations to the first and the module attribute to the second)
+            try:
+                fc0 = it.classify_field(f)
+                ft = getattr(fc0, "type_", None)
+                if isinstance(fc0, (it.EntityField, it.EntityTupleField)) and ft is not None:
+                    pub = getattr(sys.modules.get(ft.__module__), ft.__qualname__, None)
+                    if pub is not ft:
+                        prop_bad.append({"class": f"{cls.__module__}:{cls.__qualname__}", "field": f.name,
+                                         "what": f"the field's type {ft.__module__}.{ft.__qualname__} is not the class importable under that name"})
+            except Exception:  # noqa
+                pass
+            if tagged:
+                # (continued)
                 try:
                     dv = idf.get_tagged_field_default(f)
                     fc = it.classify_field(f)
